@@ -337,7 +337,7 @@ def run(ctx):
     ctx.assumptions += ["film coefficients, conductivity and thickness are positive (the theorems' hypotheses)",
                         "floating-point evaluation differs from the exact formulas only by round-off (measured in the oracle)"]
     try:
-        g, info = build_gen(ctx, rng)
+        g, info = build_gen(ctx, random.Random(1000))
         ctx.gen("C11", g.render())
         ctx.stats["trace"] = info
     except (TraceError, Exception) as e:  # tracing failed: proof obligation cannot be regenerated
